@@ -58,7 +58,9 @@ Proof. split; reflexivity. Qed.
 (* soundness of the executable checker: spec_ok accepts a successful observation only if it agrees (strictly) *)
 Lemma spec_ok_sound c v : spec_ok c = true -> c_outside c = false -> c_obs c = OOk v -> agrees (c_ty c) (eff_doc (c_ty c) (c_doc c)) v = true.
 Proof.
-  unfold spec_ok, spec_ok_t, obs_ok. intros H O E. rewrite O, E in H. repeat (apply andb_true_iff in H as [H _]). exact H.
+  unfold spec_ok, spec_ok_t, obs_ok. intros H O E. rewrite O, E in H.
+  destruct (val_finite v && agrees_t TNone (c_ty c) (eff_doc (c_ty c) (c_doc c)) v) eqn:G;
+    [apply andb_true_iff in G as [_ G]; exact G | simpl in H; discriminate].
 Qed.
 
 Lemma spec_ok_no_panic c : spec_ok c = true -> c_obs c <> OPanic.
